@@ -34,7 +34,7 @@ func TestMain(m *testing.M) {
 		os.Exit(0)
 	}
 	harness.Describe(
-		"trees: every corpus (file, format) pair unmodified; rapid-drawn mutants (worker process; truncations favoured, forced decodes) — partial trees, gap fields appended to root arrays, nested buffers; rapid-generated decoder programs (nested formats and buffers, arrays of arrays, partial trees). Values: all of a tree (quick: all when the tree has at most 6000 values, otherwise 2500 chosen by a hash of the case, reached through the harness's own path). Per value, by pointer identity of the decode.Value: root|getpath(topath) is the value; parent holds it under _name (struct) or _index (array); the last path element is that name/index; parent, root, buffer_root, format_root, [parents] equal the harness's upward walk over Parent links (buffer root: nearest ancestor-or-self that starts a buffer; format root: nearest that starts a format or buffer); topath|path_to_expr parsed by the reference engine as `null|path(EXPR)` gives topath back; for up to 3 values per tree the expression is evaluated on the root with eval and must reach the value, and expr_to_path must return the path. Generated paths (length 0..6; strings: empty, identifiers, keywords, leading digits, quotes, backslashes, `\\(`, controls, arbitrary unicode; integers: small, negative, up to 2^53): path_to_expr output parsed by the reference engine must give the path back (all), and path_to_expr|expr_to_path through fq must be the identity (sampled: 20 ms each). One evaluation = one tree or one batch of paths. Non-trivial: the tree has at least 3 levels and a nested buffer, a nested format, an array, or a failed decode; a path batch is non-trivial when it has a string that is not an identifier.",
+		"trees: every corpus (file, format) pair unmodified; rapid-drawn mutants (worker process; truncations favoured, forced decodes) — partial trees, gap fields appended to root arrays, nested buffers; rapid-generated decoder programs (nested formats and buffers, arrays of arrays, partial trees). Values: all of a tree (enumerated by fq itself when the tree has at most 6000 (thorough 50000) values; bigger trees: 2500 chosen by a hash of the case (thorough: all), reached through the harness's own path). Per value, by pointer identity of the decode.Value: root|getpath(topath) is the value; parent holds it under _name (struct) or _index (array); the last path element is that name/index; parent, root, buffer_root, format_root, [parents] equal the harness's upward walk over Parent links (buffer root: nearest ancestor-or-self that starts a buffer; format root: nearest that starts a format or buffer); topath|path_to_expr parsed by the reference engine as `null|path(EXPR)` gives topath back; for up to 3 values per tree the expression is evaluated on the root with eval and must reach the value, and expr_to_path must return the path. Generated paths (length 0..6; strings: empty, identifiers, keywords, leading digits, quotes, backslashes, `\\(`, controls, arbitrary unicode; integers: small, negative, up to 2^53): path_to_expr output parsed by the reference engine must give the path back (all), and path_to_expr|expr_to_path through fq must be the identity (sampled: 20 ms each). One evaluation = one tree or one batch of paths. Non-trivial: the tree has at least 3 levels and a nested buffer, a nested format, an array, or a failed decode; a path batch is non-trivial when it has a string that is not an identifier.",
 		"struct children are not required to report _index == null (the statement speaks of name or index; 394 corpus values carry a stale index, see C03)",
 		"topath | path_to_expr is parsed back with the gojq fork fq embeds, without fq's prelude; expr_to_path itself (an _eval per call) is sampled",
 		"a Go panic or process death of a decoder on a mutated input is C06's subject: the case is counted as skipped",
@@ -195,29 +195,9 @@ type checker struct {
 
 func (c *checker) desc(n *treegen.Node) string { return n.Path() }
 
-// sigPrefix separates the one known way in which the tree's own bookkeeping
-// is already broken before any path is asked for (C03's finding
-// failed-decode:nested-root-not-post-processed): an array element whose Index
-// was never assigned because it lives below a nested buffer root made by
-// FieldStruct/ArrayRootBitBufFn whose callback failed.  Every other wrong
-// index keeps the plain signature.
-func (c *checker) sigPrefix(n *treegen.Node) string {
-	if c.tr.Root.V.Err == nil {
-		return ""
-	}
-	for a := n; a.Parent != nil; a = a.Parent {
-		if pc := a.Parent.Compound(); pc != nil && pc.IsArray && a.V.Index != a.Pos {
-			br := bufferRootOf(a.Parent)
-			if br != c.tr.Root && br.V.Format == nil && br.IsCompound() {
-				return "unnumbered-array-in-failed-nested-root:"
-			}
-		}
-	}
-	return ""
-}
-
 func (c *checker) failf(n *treegen.Node, sig, format string, a ...any) {
-	c.res.Failf(c.sigPrefix(n)+sig, format, a...)
+	_ = n
+	c.res.Failf(sig, format, a...)
 }
 
 // the harness's own upward walks
@@ -395,10 +375,12 @@ func (c *checker) checkEvalRow(n *treegen.Node, row []any) {
 }
 
 const (
-	parentsPerTree = 400
-	quickWalkMax   = 6000
-	quickPaths     = 2500
-	walkChunk      = 20000
+	parentsPerTree  = 400
+	quickWalkMax    = 6000
+	thoroughWalkMax = 50000
+	pathChunk       = 10000
+	quickPaths      = 2500
+	walkChunk       = 20000
 )
 
 // evalEvery: the expression of a value is evaluated on the root (an eval and
@@ -410,7 +392,7 @@ func (c *checker) check(seed uint64, evalEvery int) {
 
 	// values whose expression is evaluated on the root (20 ms each)
 	nEval := 1
-	if thorough() {
+	if thorough() && evalEvery == 1 {
 		nEval = 3
 	}
 	if evalEvery > 1 && mix(seed^0x2545f4914f6cdd1d)%uint64(evalEvery) != 0 {
@@ -456,14 +438,18 @@ func (c *checker) check(seed uint64, evalEvery int) {
 	if n > parentsPerTree {
 		pstep = n / parentsPerTree
 	}
-	if thorough() || n <= quickWalkMax {
+	walkMax := quickWalkMax
+	if thorough() {
+		walkMax = thoroughWalkMax
+	}
+	if n <= walkMax {
 		for from := 0; from == 0 || from < n; from += walkChunk {
 			to := min(from+walkChunk, n)
 			in := map[string]any{"root": holder, "mode": "walk", "from": from, "to": to, "pstep": pstep, "evals": []any{}}
 			if from == 0 {
 				in["evals"] = evals
 			}
-			out, err := stream.Next(in)
+			out, err := stream.NextW(in, to-from+1)
 			if err != nil {
 				res.Failf("harness:jq-evaluation-failed", "%v", err)
 				return
@@ -510,55 +496,75 @@ func (c *checker) check(seed uint64, evalEvery int) {
 		return
 	}
 
-	// big tree, quick tier: chosen values through the harness's path
-	type pickT struct {
-		i   int
-		key uint64
-	}
-	picks := make([]pickT, n)
-	for i := range picks {
-		picks[i] = pickT{i, mix(seed ^ uint64(i)*0x100000001b3)}
-	}
-	sort.Slice(picks, func(a, b int) bool { return picks[a].key < picks[b].key })
-	sel := []int{0}
-	for _, p := range picks {
-		if len(sel) >= quickPaths {
-			break
+	// big tree: values through the harness's path (quick: chosen by hash;
+	// thorough: all, in chunks — a jq-side list of a million values and their
+	// rows does not fit the shard's memory limit)
+	var sel []int
+	if thorough() {
+		sel = make([]int, n)
+		for i := range sel {
+			sel[i] = i
 		}
-		if p.i != 0 {
-			sel = append(sel, p.i)
+	} else {
+		type pickT struct {
+			i   int
+			key uint64
 		}
-	}
-	sort.Ints(sel)
-	paths := make([]any, len(sel))
-	for k, i := range sel {
-		paths[k] = treeq.PathOf(tr.All[i])
-	}
-	out, err := stream.Next(map[string]any{"root": holder, "mode": "paths", "paths": paths, "pstep": max(1, len(paths)/parentsPerTree), "evals": evals})
-	if err != nil {
-		res.Failf("harness:jq-evaluation-failed", "%v", err)
-		return
-	}
-	if len(out) < len(sel) {
-		res.Failf("harness:jq-output-shape", "got %d rows for %d paths", len(out), len(sel))
-		return
-	}
-	for k, i := range sel {
-		row, _ := out[k].([]any)
-		nd := tr.All[i]
-		if len(row) == 1 || (len(row) == 12 && treeq.DecodeValueOf(row[0]) != nd.V) {
-			res.Stat("values", 1)
-			res.Failf("harness-path-does-not-resolve-to-the-value", "%s: root | getpath(%s) (names and positions taken from the tree) is not that value", nd.Path(), showPath(paths[k]))
-			continue
+		picks := make([]pickT, n)
+		for i := range picks {
+			picks[i] = pickT{i, mix(seed ^ uint64(i)*0x100000001b3)}
 		}
-		if len(row) != 12 {
-			res.Failf("harness:jq-output-shape", "value row has %d elements", len(row))
+		sort.Slice(picks, func(a, b int) bool { return picks[a].key < picks[b].key })
+		sel = []int{0}
+		for _, p := range picks {
+			if len(sel) >= quickPaths {
+				break
+			}
+			if p.i != 0 {
+				sel = append(sel, p.i)
+			}
+		}
+		sort.Ints(sel)
+	}
+	pstepSel := max(1, len(sel)/parentsPerTree)
+	for from := 0; from < len(sel); from += pathChunk {
+		to := min(from+pathChunk, len(sel))
+		paths := make([]any, to-from)
+		for k := from; k < to; k++ {
+			paths[k-from] = treeq.PathOf(tr.All[sel[k]])
+		}
+		in := map[string]any{"root": holder, "mode": "paths", "paths": paths, "pstep": pstepSel, "evals": []any{}}
+		if from == 0 {
+			in["evals"] = evals
+		}
+		out, err := stream.NextW(in, to-from+1)
+		if err != nil {
+			res.Failf("harness:jq-evaluation-failed", "%v", err)
 			return
 		}
-		c.checkRow(nd, row)
+		if len(out) < to-from {
+			res.Failf("harness:jq-output-shape", "got %d rows for %d paths", len(out), to-from)
+			return
+		}
+		for k := from; k < to; k++ {
+			row, _ := out[k-from].([]any)
+			nd := tr.All[sel[k]]
+			if len(row) == 1 || (len(row) == 12 && treeq.DecodeValueOf(row[0]) != nd.V) {
+				res.Stat("values", 1)
+				res.Failf("harness-path-does-not-resolve-to-the-value", "%s: root | getpath(%s) (names and positions taken from the tree) is not that value", nd.Path(), showPath(paths[k-from]))
+				continue
+			}
+			if len(row) != 12 {
+				res.Failf("harness:jq-output-shape", "value row has %d elements", len(row))
+				return
+			}
+			c.checkRow(nd, row)
+		}
+		if from == 0 {
+			handleEvalRows(out[to-from:])
+		}
 	}
-	handleEvalRows(out[len(sel):])
-	res.Label("mode:chosen-values")
+	res.Label("mode:values-by-harness-path")
 }
 
 func checkTree(tr *treegen.Tree, seed uint64, evalEvery int, res *treegen.Result) {
@@ -610,7 +616,7 @@ func checkTreeCase(tc *treegen.TreeCase, res *treegen.Result) {
 	if tc.Req.Mut.Kind != "none" && tc.Req.Mut.Kind != "" {
 		every = 8
 	}
-	if thorough() {
+	if thorough() && every == 4 {
 		every = 1
 	}
 	checkTree(tc.Tree, harness.HashBytes([]byte(tc.Req.String())), every, res)
